@@ -3,7 +3,7 @@
  * fast reference.  The fast reference (64-bit words, algebraic normal form of the S-box) is independent of the
  * library and is itself checked against the table-S-box reference ref.c on random states at start-up.
  * The input is a 16 MiB pattern mapped repeatedly (little real memory); the output buffer is real.
- * usage: huge <what>     what: aead:<alg> aead-ad:<alg> aead-dec:<alg> inc:<alg> siv:<alg> siv-dec:<alg> isap:<alg>
+ * usage: huge <what> [length]    what: aead:<alg> aead-ad:<alg> inc:<alg> masked:<alg> siv:<alg> siv-ad:<alg> isap:<alg> isap-ad:<alg> hash ... (default length 2^32 + 40)
  *                              hash:<a> xof-in:<a> xof-out:<a> prf-in prf-out hmac:<a> kmac:<a> masked:<alg> */
 #define _GNU_SOURCE
 #include "hx.h"
@@ -144,6 +144,27 @@ int main(int argc, char **argv)
         uint8_t out[64]; api_aead_enc[arg](out, &cl, in, 9, in, L, nonce, key);
         long long bad = aead_check(arg, 0, key, nonce, L, 9, out, tag);
         if (bad >= 0) hx_fail(kb, "output differs from the specification for %zu bytes of associated data", L);
+        /* a packet made under L bytes of associated data must be rejected under its first L mod 2^32 bytes and under L-1 bytes */
+        { uint8_t pt[16]; size_t ml = 0; if (api_aead_dec[arg](pt, &ml, out, 25, in, L, nonce, key) != 0) hx_fail(kb, "genuine packet with %zu bytes of associated data rejected", L);
+          if (L > 0xffffffffu && api_aead_dec[arg](pt, &ml, out, 25, in, L & 0xffffffffu, nonce, key) == 0) hx_fail(kb, "packet accepted under the first %zu of %zu bytes of associated data", L & 0xffffffffu, L);
+          if (api_aead_dec[arg](pt, &ml, out, 25, in, L - 1, nonce, key) == 0) hx_fail(kb, "packet accepted under %zu of %zu bytes of associated data", L - 1, L); }
+    } else if (!strcmp(what, "siv-ad")) {
+        uint8_t out[64], pt[16]; size_t ml = 0; api_siv_enc[arg](out, &cl, in, 9, in, L, nonce, key);
+        siv_tag(arg, key, nonce, L, 9, tag);
+        if (cl != 25 || memcmp(out + 9, tag, 16)) hx_fail(kb, "SIV tag differs from the documented construction for %zu bytes of associated data", L);
+        if (api_siv_dec[arg](pt, &ml, out, 25, in, L, nonce, key) != 0) hx_fail(kb, "genuine packet with %zu bytes of associated data rejected", L);
+        if (L > 0xffffffffu && api_siv_dec[arg](pt, &ml, out, 25, in, L & 0xffffffffu, nonce, key) == 0) hx_fail(kb, "packet accepted under the first %zu of %zu bytes of associated data", L & 0xffffffffu, L);
+        if (api_siv_dec[arg](pt, &ml, out, 25, in, L - 1, nonce, key) == 0) hx_fail(kb, "packet accepted under %zu of %zu bytes of associated data", L - 1, L);
+    } else if (!strcmp(what, "isap-ad")) {
+        /* no streaming reference for the ISAP MAC: the tag must depend on all of the associated data (prefix and L-1 variants rejected, tag differs from the prefix's tag) */
+        uint8_t out[64], o2[64], pt[16]; size_t ml = 0; api_isap_key pk; api_isap_init[arg](&pk, key);
+        api_isap_enc[arg](out, &cl, in, 9, in, L, nonce, &pk);
+        if (cl != 25) hx_fail(kb, "reported length %zu", cl);
+        if (api_isap_dec[arg](pt, &ml, out, 25, in, L, nonce, &pk) != 0 || ml != 9 || memcmp(pt, in, 9)) hx_fail(kb, "genuine packet with %zu bytes of associated data rejected", L);
+        if (L > 0xffffffffu) { api_isap_enc[arg](o2, &cl, in, 9, in, L & 0xffffffffu, nonce, &pk); if (!memcmp(out + 9, o2 + 9, 16)) hx_fail(kb, "tag for %zu bytes of associated data equals the tag for its first %zu bytes", L, L & 0xffffffffu);
+          if (api_isap_dec[arg](pt, &ml, out, 25, in, L & 0xffffffffu, nonce, &pk) == 0) hx_fail(kb, "packet accepted under the first %zu of %zu bytes of associated data", L & 0xffffffffu, L); }
+        if (api_isap_dec[arg](pt, &ml, out, 25, in, L - 1, nonce, &pk) == 0) hx_fail(kb, "packet accepted under %zu of %zu bytes of associated data", L - 1, L);
+        api_isap_free[arg](&pk);
     } else if (!strcmp(what, "siv")) {
         uint8_t *out = malloc(L + 16 + 64); memset(out + L + 16, 0xC5, 64);
         api_siv_enc[arg](out, &cl, in, L, in, 13, nonce, key);
